@@ -91,19 +91,32 @@ def body(ck):
     res = ck.run_coq_cases("C08Check", cases, shard=100, preamble="From Lerax Require Import Losses.\nImport C08Check.")
     ck.classify(res, cj, sig_of=lambda i: "C08/" + cj[i]["algo"], relation="Losses (ppo.py:143-210, a2c.py:124-152, reinforce.py:113-137) vs static loss functions",
                 what="loss / statistics differ from the published objective")
-    # optimiser chain: gradient updates go through global-norm clipping
-    for name, algo in (("PPO", PPO(num_envs=1, num_steps=4, max_grad_norm=0.5)), ("A2C", A2C(num_envs=1, num_steps=4)), ("REINFORCE", REINFORCE(num_envs=1, num_steps=4))):
-        params = {"w": jnp.ones((4,))}
-        direction = jnp.asarray([3.0, -4.0, 0.0, 12.0]) / 13.0
+    # optimiser chain: gradient updates are applied through global-norm clipping FOLLOWED BY the configured optimiser.
+    # Two consecutive updates (carrying the optimiser state) are compared with a reference chain built from optax directly:
+    # clipping after Adam, or no clipping, changes Adam's moments and hence the second update.
+    import optax
+    lr = 1e-3
+    for name, algo in (("PPO", PPO(num_envs=1, num_steps=4, max_grad_norm=0.5, learning_rate=lr)), ("A2C", A2C(num_envs=1, num_steps=4, learning_rate=lr)),
+                       ("REINFORCE", REINFORCE(num_envs=1, num_steps=4, learning_rate=lr))):
+        params = {"w": jnp.asarray([0.5, -1.0, 2.0, 0.25])}
         mg = float(getattr(algo, "max_grad_norm", 0.5))
+        ref = optax.chain(optax.clip_by_global_norm(mg), optax.inject_hyperparams(optax.adam)(lr))
+        g_big = {"w": jnp.asarray([3.0, -4.0, 0.001, 12.0]) * (20 * mg / 13.0)}      # norm 20 x max_grad_norm
+        g_small = {"w": jnp.asarray([0.3, 0.1, -0.2, 0.05]) * mg}                    # norm below max_grad_norm
+        st_a, st_r = algo.optimizer.init(params), ref.init(params)
+        worst = 0.0
         ups = []
-        for scale in (mg, 10 * mg, 1000 * mg):
-            u, _ = algo.optimizer.update({"w": direction * scale}, algo.optimizer.init(params), params)
-            ups.append(np.asarray(u["w"]))
+        for g in (g_big, g_small, g_big):
+            ua, st_a = algo.optimizer.update(g, st_a, params)
+            ur, st_r = ref.update(g, st_r, params)
+            worst = max(worst, float(np.max(np.abs(np.asarray(ua["w"]) - np.asarray(ur["w"])))))
+            ups.append([np.asarray(ua["w"]).tolist(), np.asarray(ur["w"]).tolist()])
         ck.count("optimizer_chain_checks")
-        if not (np.allclose(ups[0], ups[1], rtol=1e-6) and np.allclose(ups[1], ups[2], rtol=1e-6)):
-            ck.violations.append(Violation("impl-violates-property", f"C08/{name}/grad-norm-clipping", "gradients with norm above max_grad_norm are not clipped to it before the optimiser step",
-                                           case={"algo": name, "max_grad_norm": mg, "updates": [u.tolist() for u in ups]}))
+        ck.case_seen(("optimizer-chain", name))
+        if worst > 1e-9:
+            ck.violations.append(Violation("impl-violates-property", f"C08/{name}/grad-norm-clipping",
+                                           "the optimiser does not apply global-norm clipping to the gradient before the Adam step (updates differ from clip_by_global_norm -> adam)",
+                                           case={"algo": name, "max_grad_norm": mg, "learning_rate": lr, "max_abs_deviation": worst, "updates[impl,reference] for (big, small, big) gradients": ups}))
 
 
 if __name__ == "__main__":
